@@ -17,6 +17,7 @@ import (
 	"sort"
 	"sync"
 
+	"github.com/frankkopp/FrankyGo/internal/movegen"
 	"github.com/frankkopp/FrankyGo/internal/openingbook"
 	"github.com/frankkopp/FrankyGo/internal/position"
 	. "github.com/frankkopp/FrankyGo/internal/types"
@@ -106,6 +107,11 @@ func bookRun(args []string) error {
 	}
 	var last *openingbook.Book
 	var errs []string
+	// the engine builds its book after the protocol handler has constructed a position and a move generator on the
+	// main goroutine; these constructors set up package-level loggers lazily, which the per-line goroutines of the
+	// book build would otherwise race for - a race the engine itself cannot have
+	_ = position.NewPosition()
+	_ = movegen.NewMoveGen()
 	for r := 0; r < *rounds; r++ {
 		b := openingbook.NewBook()
 		err := b.Initialize(filepath.Dir(*fileF), filepath.Base(*fileF), bf, *useCache, *recreate)
